@@ -43,7 +43,7 @@ PROBES = ["overloads_same_param_names", "optional_param_member", "class_missing_
           "xml_member_has_extra_optional_param", "overloads_with_permuted_param_names",
           "literals_crosschecked_with_gpp", "binding_after_fault_on_its_file", "text_longer_than_512", "decoy_class_with_similar_name",
           "decoy_member_with_similar_name", "param_documented_without_text", "param_item_without_name",
-          "section_ahead_of_return", "return_section_partial", "truncation_left_document_wellformed", "member_in_other_sectiondef"]
+          "section_ahead_of_return", "return_section_partial", "truncation_left_document_wellformed", "member_in_other_sectiondef", "xml_in_another_encoding"]
 
 
 def batches(tier):
@@ -520,7 +520,16 @@ def gen_case(tape, batch):
             pr["text_with_unprintable_latin1"] = 1
             if k + 1 < len(alltext) and alltext[k + 1] in "0123456789abcdefABCDEF":
                 pr["unprintable_followed_by_hexdigit"] = 1
-    case["xml"] = DX.build_tree({"classes": xml_classes})
+    # the XML store is usually UTF-8, but any encoding named in the declaration (or by a BOM) is legal XML
+    index_enc = "UTF-8"
+    if tape.bool(0.15, "xml-other-encoding"):
+        index_enc = tape.pick(["ISO-8859-1", "UTF-16", "UTF-8"], "index-encoding")
+        for xc in xml_classes:
+            if tape.bool(0.6, "class-file-other-encoding"):
+                if xc is not None and "members" in xc:
+                    xc["encoding"] = tape.pick(["ISO-8859-1", "UTF-16"], "class-encoding")
+        pr["xml_in_another_encoding"] = 1
+    case["xml"] = DX.build_tree({"classes": xml_classes, "index_encoding": index_enc})
     case["mode"] = tape.weighted([2, 1], "mode")
     case["sub"] = tape.bool(0.3, "as-submodule")
     case["tpl"] = B.TEMPLATES[tape.weighted([3, 2, 2], "tpl")]
